@@ -1,3 +1,472 @@
-import VncModel.Proxy
+import VncSpec.Recorder
+import VncProofs.ExpectInv
+/-!
+# C16 — The logging proxy is a transparent relay   /   C17 — vnclog records every input event once, in order
+
+Model: `proxyMachine` (VncModel/Proxy.lean = `RFBServer` of loggingproxy.py as an instance of the buffering machine),
+`recStep` (the recorder).  Spec: VncSpec/Recorder.lean.
+
+NOTE (statements found false, see `C16_progress_false`, `C16_steps_linear_false`): `Progress proxyMachine` quantifies
+over *all* states, including the unreachable states `.body t 0` ("0 bytes of the fixed part remain").  From
+`.body 2 0` (resp. `.body 6 0`) the handler moves to `.encodings 0` (resp. `.cutText 0`), which is a second
+zero-length expectation.  No handler ever produces `.body t 0` (every understood message is at least 2 bytes long,
+`typeLen_cases`), so the corrected statements are relative to the invariant `PInv` (VncProofs/ExpectInv.lean holds the
+generic theorems relative to an invariant).
+-/
 namespace Vnc
+open Vnc.Spec
+
+theorem px_step_eq (s : PSt) (b : Bytes) : proxyMachine.step s b = pStep s b := rfl
+theorem px_need_eq (s : PSt) : proxyMachine.need s = pNeed s := rfl
+theorem px_halted_eq (s : PSt) : proxyMachine.halted s = pHalted s := rfl
+
+/-! ## the parser terminates on every input and never loops on a zero-length field (C16: the relay is never delayed) -/
+
+/-- every understood message type is at least two bytes long -/
+theorem typeLen_cases (t : Nat) : typeLen t = 0 ∨ 2 ≤ typeLen t := by
+  simp only [typeLen, Tables.TYPE_LEN, List.find?]
+  repeat' split
+  all_goals simp
+
+/-- the invariant of the reachable states: the parser never waits for "the remaining 0 bytes" of a message -/
+def PInv (s : PSt) : Prop := ∀ t, s.ph ≠ .body t 0
+
+theorem keyOut_ph (s : PSt) (k : Nat) (d : Bool) : (keyOut s k d).1.ph = .proto ∨ (keyOut s k d).1.ph = .dead := by
+  unfold keyOut; split <;> simp [pgo]
+
+/-- every handler establishes the invariant (whatever the state it was called in) -/
+theorem pinv_step (s : PSt) (b : Bytes) : PInv (pStep s b).1 := by
+  obtain ⟨pw, ph⟩ := s
+  intro t
+  cases ph <;> simp only [pStep]
+  case proto =>
+    generalize (b.getD 0 0).toNat = x
+    rcases typeLen_cases x with h | h
+    · simp [h, pgo]
+    · have : ¬ (typeLen x = 0) := by omega
+      simp [this, pgo]; omega
+  case body t' n =>
+    repeat' split
+    all_goals first
+      | (simp [pgo]; done)
+      | (rcases keyOut_ph ⟨pw, .body t' n⟩ (beNat (b.drop 3)) ((b.getD 0 0) != 0) with h | h <;> rw [h] <;> simp)
+  case qemuKey =>
+    rcases keyOut_ph ⟨pw, .qemuKey⟩ (beNat ((b.drop 2).take 4)) (beNat (b.take 2) != 0) with h | h <;> rw [h] <;> simp
+  all_goals (repeat' split) <;> simp [pgo]
+
+theorem pinv_init (pw : Bool) : PInv (PSt.init pw) := by
+  intro t h; cases h
+
+theorem pinv_proto (pw : Bool) : PInv ⟨pw, .proto⟩ := by
+  intro t h; cases h
+
+/-- **COUNTER-EXAMPLE to the original statement `Progress proxyMachine`**: the (unreachable) state `.body 2 0` has a
+    zero-length expectation and its handler arms `.encodings 0`, another zero-length expectation, without halting. -/
+theorem C16_progress_false : ¬ Progress proxyMachine := by
+  intro hp
+  have := hp ⟨false, .body 2 0⟩ rfl rfl
+  revert this
+  decide
+
+/-- **CORRECTED `C16_progress`** (original: `Progress proxyMachine`, false by `C16_progress_false`): every handler
+    establishes `PInv`, and on `PInv` states a zero-length expectation is never followed by another one. -/
+theorem C16_progress : ProgressOn proxyMachine PInv := by
+  refine ⟨fun s b _ => pinv_step s b, ?_⟩
+  intro s hi hh hz
+  obtain ⟨pw, ph⟩ := s
+  show pHalted (pStep ⟨pw, ph⟩ []).1 = true ∨ 0 < pNeed (pStep ⟨pw, ph⟩ []).1
+  cases ph <;> simp [proxyMachine, pNeed, pHalted] at hz hh
+  case body t n => subst hz; exact absurd rfl (hi t)
+  case encodings n => right; simp [pStep, pgo, pNeed]
+  case cutText n => right; simp [pStep, pgo, pNeed]
+
+theorem not_pinv {s : PSt} (h : ¬ PInv s) : ∃ t, s.ph = .body t 0 := by
+  obtain ⟨pw, ph⟩ := s
+  cases ph
+  case body t n =>
+    cases n with
+    | zero => exact ⟨t, rfl⟩
+    | succ n => exact absurd (by intro t h; simp at h) h
+  all_goals exact absurd (by intro t h; simp at h) h
+
+/-- statement as given (holds in *every* state, also the unreachable ones: the fuel of `feed` has one unit to spare) -/
+theorem C16_no_spin (st : St PSt) (chunk : Bytes) : (feed proxyMachine st chunk).2.2 = true := by
+  by_cases hi : PInv st.s
+  · exact feed_ok_on proxyMachine C16_progress st hi chunk
+  · obtain ⟨t, ht⟩ := not_pinv hi
+    have hnb : proxyMachine.blocked st.s (st.buf ++ chunk) = false := by
+      simp [Machine.blocked, proxyMachine, pHalted, pNeed, ht]
+    have e : feedFuel st chunk = (2 * (st.buf ++ chunk).length + 1) + 1 := by
+      simp only [feedFuel, List.length_append]
+    have hz : proxyMachine.need st.s = 0 := by simp [proxyMachine, pNeed, ht]
+    simp only [feed, e]
+    rw [drain_ok_succ _ _ _ _ hnb, hz, List.take_zero, List.drop_zero]
+    apply drain_enough_on proxyMachine C16_progress _ _ _ (pinv_step _ _)
+    split <;> omega
+
+/-- **COUNTER-EXAMPLE to the original statement of `C16_steps_linear`** (no hypothesis on `st`): from the unreachable
+    state `.body 2 0` with nothing buffered, the empty chunk causes 2 handler calls; the claimed bound is 1. -/
+theorem C16_steps_linear_false : ¬ ∀ (st : St PSt) (chunk : Bytes),
+    drainSteps proxyMachine (feedFuel st chunk) st.s (st.buf ++ chunk) ≤ 2 * (st.buf.length + chunk.length) + 1 := by
+  intro h
+  have := h ⟨⟨false, .body 2 0⟩, []⟩ []
+  revert this
+  decide
+
+/-- **CORRECTED `C16_steps_linear`**: extra hypothesis `hinv` (the state is one the parser can actually be in; it
+    holds initially and after every handler call, `pinv_init`, `pinv_step`). -/
+theorem C16_steps_linear (st : St PSt) (hinv : PInv st.s) (chunk : Bytes) :
+    drainSteps proxyMachine (feedFuel st chunk) st.s (st.buf ++ chunk) ≤ 2 * (st.buf.length + chunk.length) + 1 := by
+  have := drainSteps_le_on proxyMachine C16_progress (feedFuel st chunk) st.s (st.buf ++ chunk) hinv
+  simp only [List.length_append] at this
+  split at this <;> omega
+
+/-- without any hypothesis the bound is one more -/
+theorem C16_steps_linear_any (st : St PSt) (chunk : Bytes) :
+    drainSteps proxyMachine (feedFuel st chunk) st.s (st.buf ++ chunk) ≤ 2 * (st.buf.length + chunk.length) + 2 := by
+  by_cases hi : PInv st.s
+  · have := C16_steps_linear st hi chunk
+    omega
+  · obtain ⟨t, ht⟩ := not_pinv hi
+    have hnb : proxyMachine.blocked st.s (st.buf ++ chunk) = false := by
+      simp [Machine.blocked, proxyMachine, pHalted, pNeed, ht]
+    have e : feedFuel st chunk = (2 * (st.buf ++ chunk).length + 1) + 1 := by
+      simp only [feedFuel, List.length_append]
+    have hz : proxyMachine.need st.s = 0 := by simp [proxyMachine, pNeed, ht]
+    rw [e, drainSteps_succ _ _ _ _ hnb, hz, List.take_zero, List.drop_zero]
+    have := drainSteps_le_on proxyMachine C16_progress (2 * (st.buf ++ chunk).length + 1)
+      (proxyMachine.step st.s []).1 (st.buf ++ chunk) (pinv_step _ _)
+    simp only [List.length_append] at this ⊢
+    split at this <;> omega
+
+/-- the table of message lengths, as extracted from the source: every understood type has its RFC header length -/
+theorem C16_type_len : Tables.TYPE_LEN = [(0, 20), (2, 4), (3, 10), (4, 8), (5, 6), (6, 8), (255, 2)] := by decide
+
+/-! ## chunk independence (C17): the events the recorder sees do not depend on how the viewer's stream is split -/
+
+def pxInit (pw : Bool) : St PSt := ⟨PSt.init pw, []⟩
+
+theorem pxInit_blocked (pw : Bool) : (pxInit pw).Blocked proxyMachine := by
+  simp [St.Blocked, Machine.blocked, pxInit, proxyMachine, PSt.init, pNeed, pHalted]
+
+theorem C17_chunk_independent (pw : Bool) (cs : List Bytes) :
+    feedAll proxyMachine (pxInit pw) cs = feed proxyMachine (pxInit pw) cs.flatten :=
+  feedAll_flatten_on proxyMachine C16_progress cs _ (pinv_init pw) (pxInit_blocked pw)
+
+theorem C17_chunkings (pw : Bool) (cs ds : List Bytes) (h : cs.flatten = ds.flatten) :
+    feedAll proxyMachine (pxInit pw) cs = feedAll proxyMachine (pxInit pw) ds :=
+  chunkings_agree_on proxyMachine C16_progress _ (pinv_init pw) (pxInit_blocked pw) cs ds h
+
+/-- promptness: between two chunks the parser never sits on a complete message - what is buffered is shorter than
+    what the pending state still needs -/
+theorem C17_prompt (st : St PSt) (chunk : Bytes) :
+    let r := (feed proxyMachine st chunk).1
+    pHalted r.s = true ∨ r.buf.length < pNeed r.s := by
+  intro r
+  have := drain_result_blocked proxyMachine (feedFuel st chunk) st.s (st.buf ++ chunk) (C16_no_spin st chunk)
+  simp only [Machine.blocked, Bool.or_eq_true, decide_eq_true_eq] at this
+  exact this
+
+/-! ## one message: consumed exactly, its events produced, back to waiting for a message type -/
+
+theorem runs_type (pw : Bool) (t : UInt8) (n : Nat) (rest : Bytes) (o : List PEvent) (s' : PSt) (b' : Bytes)
+    (hn : typeLen t.toNat = n + 1)
+    (hr : Runs proxyMachine ⟨pw, .body t.toNat n⟩ rest o s' b') :
+    Runs proxyMachine ⟨pw, .proto⟩ (t :: rest) o s' b' := by
+  refine Runs.step' [t] rest ⟨pw, .body t.toNat n⟩ [] o rfl rfl rfl ?_ rfl hr
+  rw [px_step_eq]
+  simp only [pStep, List.getD_cons_zero, hn, pgo]
+  simp
+
+theorem flatten_len4 (encs : List Bytes) (h : ∀ e ∈ encs, e.length = 4) : encs.flatten.length = 4 * encs.length := by
+  induction encs with
+  | nil => rfl
+  | cons e es ih =>
+    simp only [List.flatten_cons, List.length_append, List.length_cons]
+    rw [h e (by simp), ih (fun x hx => h x (by simp [hx]))]
+    omega
+
+
+theorem C17_message (pw : Bool) (m : VMsg) (hwf : m.WF) (hr : m.Recordable)
+    (rest : Bytes) (o : List PEvent) (s' : PSt) (b' : Bytes)
+    (hcont : Runs proxyMachine ⟨pw, .proto⟩ rest o s' b') :
+    Runs proxyMachine ⟨pw, .proto⟩ (m.wire ++ rest) (m.events ++ o) s' b' := by
+  cases m with
+  | setPixelFormat pf =>
+    simp only [VMsg.WF] at hwf
+    simp only [VMsg.wire, VMsg.events, List.cons_append, List.nil_append]
+    refine runs_type pw 0 19 _ _ _ _ (by decide) ?_
+    refine Runs.step' ([0, 0, 0] ++ pf) rest ⟨pw, .proto⟩ [.setPixelFormat pf] o (by simp) rfl
+      (by simp [px_need_eq, pNeed, hwf]) ?_ rfl hcont
+    rw [px_step_eq]
+    simp [pStep, pgo, Tables.C2S_SET_PIXEL_FORMAT]
+  | setEncodings encs =>
+    simp only [VMsg.WF] at hwf
+    simp only [VMsg.wire, VMsg.events, List.cons_append, List.nil_append, List.append_assoc]
+    refine runs_type pw 2 3 _ _ _ _ (by decide) ?_
+    refine Runs.step' (0 :: enc16 encs.length) (encs.flatten ++ rest) ⟨pw, .encodings encs.length⟩ [] _ (by simp) rfl
+      (by simp [px_need_eq, pNeed, enc16_length]) ?_ rfl ?_
+    · rw [px_step_eq]
+      simp [pStep, pgo, Tables.C2S_SET_PIXEL_FORMAT, Tables.C2S_SET_ENCODING, beNat_enc16 _ hwf.1]
+    refine Runs.step' encs.flatten rest ⟨pw, .proto⟩ [.setEncodings encs.length] o rfl rfl
+      (by simp [px_need_eq, pNeed, flatten_len4 _ hwf.2]) ?_ rfl hcont
+    rw [px_step_eq]
+    simp [pStep, pgo]
+  | updateRequest body =>
+    simp only [VMsg.WF] at hwf
+    simp only [VMsg.wire, VMsg.events, List.cons_append, List.nil_append]
+    refine runs_type pw 3 9 _ _ _ _ (by decide) ?_
+    refine Runs.step' body rest ⟨pw, .proto⟩ [.updateRequest] o rfl rfl
+      (by simp [px_need_eq, pNeed, hwf]) ?_ rfl hcont
+    rw [px_step_eq]
+    simp [pStep, pgo, Tables.C2S_SET_PIXEL_FORMAT, Tables.C2S_SET_ENCODING, Tables.C2S_FRAMEBUFFER_UPDATE_REQUEST]
+  | key k d =>
+    simp only [VMsg.WF] at hwf
+    simp only [VMsg.Recordable] at hr
+    simp only [VMsg.wire, VMsg.events, List.cons_append, List.nil_append]
+    refine runs_type pw 4 7 _ _ _ _ (by decide) ?_
+    refine Runs.step' (d :: 0 :: 0 :: enc32 k) rest ⟨pw, .proto⟩ [.key k (d != 0)] o (by simp) rfl
+      (by simp [px_need_eq, pNeed, enc32_length]) ?_ rfl hcont
+    rw [px_step_eq]
+    simp [pStep, pgo, keyOut, hr, Tables.C2S_SET_PIXEL_FORMAT, Tables.C2S_SET_ENCODING,
+      Tables.C2S_FRAMEBUFFER_UPDATE_REQUEST, Tables.C2S_KEY_EVENT, beNat_enc32 _ hwf]
+  | pointer x y mk =>
+    simp only [VMsg.WF] at hwf
+    simp only [VMsg.wire, VMsg.events, List.cons_append, List.nil_append, List.append_assoc]
+    refine runs_type pw 5 5 _ _ _ _ (by decide) ?_
+    refine Runs.step' (byteOf mk :: (enc16 x ++ enc16 y)) rest ⟨pw, .proto⟩ [.pointer x y mk] o (by simp) rfl
+      (by simp [px_need_eq, pNeed, enc16_length]) ?_ rfl hcont
+    rw [px_step_eq]
+    have h1 : List.take 2 (enc16 x ++ enc16 y) = enc16 x := List.take_left' (enc16_length x)
+    have h2 : List.drop 2 (enc16 x ++ enc16 y) = enc16 y := List.drop_left' (enc16_length x)
+    have h3 : mk % 256 = mk := Nat.mod_eq_of_lt hwf.2.2
+    simp [pStep, pgo, Tables.C2S_SET_PIXEL_FORMAT, Tables.C2S_SET_ENCODING,
+      Tables.C2S_FRAMEBUFFER_UPDATE_REQUEST, Tables.C2S_KEY_EVENT, Tables.C2S_POINTER_EVENT, h1, h2, h3,
+      beNat_enc16 _ hwf.1, beNat_enc16 _ hwf.2.1, byteOf_toNat]
+  | cutText t =>
+    simp only [VMsg.WF] at hwf
+    simp only [VMsg.wire, VMsg.events, List.cons_append, List.nil_append, List.append_assoc]
+    refine runs_type pw 6 7 _ _ _ _ (by decide) ?_
+    refine Runs.step' (0 :: 0 :: 0 :: enc32 t.length) (t ++ rest) ⟨pw, .cutText t.length⟩ [] _ (by simp) rfl
+      (by simp [px_need_eq, pNeed, enc32_length]) ?_ rfl ?_
+    · rw [px_step_eq]
+      simp [pStep, pgo, Tables.C2S_SET_PIXEL_FORMAT, Tables.C2S_SET_ENCODING,
+        Tables.C2S_FRAMEBUFFER_UPDATE_REQUEST, Tables.C2S_KEY_EVENT, Tables.C2S_POINTER_EVENT,
+        Tables.C2S_CLIENT_CUT_TEXT, beNat_enc32 _ hwf]
+    refine Runs.step' t rest ⟨pw, .proto⟩ [.cutText t] o rfl rfl
+      (by simp [px_need_eq, pNeed]) ?_ rfl hcont
+    rw [px_step_eq]
+    simp [pStep, pgo]
+  | qemuKey d k c =>
+    simp only [VMsg.WF] at hwf
+    simp only [VMsg.Recordable] at hr
+    simp only [VMsg.wire, VMsg.events, List.cons_append, List.nil_append, List.append_assoc]
+    refine runs_type pw 255 1 _ _ _ _ (by decide) ?_
+    refine Runs.step' [0] (enc16 d ++ (enc32 k ++ (enc32 c ++ rest))) ⟨pw, .qemuKey⟩ [] _ (by simp) rfl
+      (by simp [px_need_eq, pNeed]) ?_ rfl ?_
+    · rw [px_step_eq]
+      simp [pStep, pgo, Tables.C2S_SET_PIXEL_FORMAT, Tables.C2S_SET_ENCODING,
+        Tables.C2S_FRAMEBUFFER_UPDATE_REQUEST, Tables.C2S_KEY_EVENT, Tables.C2S_POINTER_EVENT,
+        Tables.C2S_CLIENT_CUT_TEXT, Tables.C2S_QEMU_CLIENT_MESSAGE]
+    refine Runs.step' (enc16 d ++ (enc32 k ++ enc32 c)) rest ⟨pw, .proto⟩ [.key k (d != 0)] o (by simp) rfl
+      (by simp [px_need_eq, pNeed, enc16_length, enc32_length]) ?_ rfl hcont
+    rw [px_step_eq]
+    have h1 : List.take 2 (enc16 d ++ (enc32 k ++ enc32 c)) = enc16 d := List.take_left' (enc16_length d)
+    have h2 : List.drop 2 (enc16 d ++ (enc32 k ++ enc32 c)) = enc32 k ++ enc32 c := List.drop_left' (enc16_length d)
+    have h3 : List.take 4 (enc32 k ++ enc32 c) = enc32 k := List.take_left' (enc32_length k)
+    simp only [pStep, h1, h2, h3, beNat_enc16 _ hwf.1, beNat_enc32 _ hwf.2.1, keyOut, hr, if_true, pgo]
+
+/-- any list of messages with arbitrary field values (any keysym that can be written, any cut-text length incl. 0,
+    any number of encodings incl. 0, any pixel format, extended key events): every message is seen exactly once,
+    in order, nothing raises -/
+theorem C17_messages (pw : Bool) (ms : List VMsg) (hwf : ∀ m ∈ ms, m.WF ∧ m.Recordable)
+    (rest : Bytes) (o : List PEvent) (s' : PSt) (b' : Bytes)
+    (hcont : Runs proxyMachine ⟨pw, .proto⟩ rest o s' b') :
+    Runs proxyMachine ⟨pw, .proto⟩ (ms.flatMap VMsg.wire ++ rest) (ms.flatMap VMsg.events ++ o) s' b' := by
+  induction ms with
+  | nil => simpa using hcont
+  | cons m ms ih =>
+    simp only [List.flatMap_cons, List.append_assoc]
+    have hm := hwf m (by simp)
+    exact C17_message pw m hm.1 hm.2 _ _ _ _ (ih (fun x hx => hwf x (by simp [hx])))
+
+theorem runs_clientInit (pw : Bool) (sh : UInt8) (rest : Bytes) (o : List PEvent) (s' : PSt) (b' : Bytes)
+    (hcont : Runs proxyMachine ⟨pw, .proto⟩ rest o s' b') :
+    Runs proxyMachine ⟨pw, .clientInit⟩ (sh :: rest) (.startLogging :: o) s' b' :=
+  Runs.step' [sh] rest ⟨pw, .proto⟩ [.startLogging] o rfl rfl rfl rfl rfl hcont
+
+theorem runs_authResponse (pw : Bool) (r : Bytes) (hr : r.length = 16) (sh : UInt8) (rest : Bytes) (o : List PEvent)
+    (s' : PSt) (b' : Bytes) (hcont : Runs proxyMachine ⟨pw, .proto⟩ rest o s' b') :
+    Runs proxyMachine ⟨pw, .authResponse⟩ (r ++ sh :: rest) (.startLogging :: o) s' b' :=
+  Runs.step' r (sh :: rest) ⟨pw, .clientInit⟩ [] _ rfl rfl hr rfl rfl (runs_clientInit pw sh rest o s' b' hcont)
+
+
+/-- the handshake is skipped correctly under every protocol version and security type: afterwards the parser waits
+    for the first message, and logging has been attached exactly once -/
+theorem C17_handshake (pw : Bool) (hs : VHandshake) (hwf : hs.WF pw)
+    (rest : Bytes) (o : List PEvent) (s' : PSt) (b' : Bytes)
+    (hcont : Runs proxyMachine ⟨pw, .proto⟩ rest o s' b') :
+    Runs proxyMachine (PSt.init pw) (hs.wire ++ rest) ([.startLogging] ++ o) s' b' := by
+  cases hs with
+  | v33 m5 resp sh =>
+    simp only [VHandshake.WF] at hwf
+    simp only [VHandshake.wire, List.append_assoc, List.cons_append, List.nil_append, PSt.init]
+    cases pw with
+    | true =>
+      obtain ⟨r, rfl, hr⟩ := hwf.1 rfl
+      refine Runs.step' [82, 70, 66, 32, 48, 48, 51, 46, 48, 48, if m5 then 53 else 51, 10] _ ⟨true, .authResponse⟩ [] _
+        rfl rfl rfl ?_ rfl (runs_authResponse true r hr sh rest o s' b' hcont)
+      cases m5 <;> rfl
+    | false =>
+      have := hwf.2 rfl
+      subst this
+      refine Runs.step' [82, 70, 66, 32, 48, 48, 51, 46, 48, 48, if m5 then 53 else 51, 10] _ ⟨false, .clientInit⟩ [] _
+        rfl rfl rfl ?_ rfl (runs_clientInit false sh rest o s' b' hcont)
+      cases m5 <;> rfl
+  | v37 e t resp sh =>
+    simp only [VHandshake.WF] at hwf
+    simp only [VHandshake.wire, List.append_assoc, List.cons_append, List.nil_append, PSt.init]
+    refine Runs.step' [82, 70, 66, 32, 48, 48, 51, 46, 48, 48, if e then 56 else 55, 10] _ ⟨pw, .security⟩ [] _
+        rfl rfl rfl (by cases e <;> rfl) rfl ?_
+    by_cases ht : t = 2
+    · obtain ⟨r, rfl, hr⟩ := hwf.1 ht
+      subst ht
+      exact Runs.step' [2] _ ⟨pw, .authResponse⟩ [] _ rfl rfl rfl rfl rfl (runs_authResponse pw r hr sh rest o s' b' hcont)
+    · have := hwf.2 ht
+      subst this
+      refine Runs.step' [t] _ ⟨pw, .clientInit⟩ [] _ rfl rfl rfl ?_ rfl (runs_clientInit pw sh rest o s' b' hcont)
+      rw [px_step_eq]
+      have : ¬ (t.toNat = 2) := fun h => ht (UInt8.toNat_inj.1 (by simpa using h))
+      simp [pStep, pgo, Tables.AUTH_VNC_AUTHENTICATION, this]
+
+theorem proto_blocked (pw : Bool) : proxyMachine.blocked ⟨pw, .proto⟩ [] = true := by
+  simp [Machine.blocked, proxyMachine, pNeed, pHalted]
+
+/-- the whole session as one run of the dispatch loop; it ends waiting for the next message type, nothing buffered -/
+theorem runs_session (pw : Bool) (hs : VHandshake) (hwf : hs.WF pw) (ms : List VMsg)
+    (hms : ∀ m ∈ ms, m.WF ∧ m.Recordable) :
+    Runs proxyMachine (PSt.init pw) (hs.wire ++ ms.flatMap VMsg.wire) ([.startLogging] ++ ms.flatMap VMsg.events)
+      ⟨pw, .proto⟩ [] := by
+  have h := C17_handshake pw hs hwf _ _ _ _
+    (C17_messages pw ms hms [] [] ⟨pw, .proto⟩ [] (Runs.done (proto_blocked pw)))
+  simpa using h
+
+/-- **a whole viewer session** delivered in any chunking: the recorder sees exactly the session's events, in order -/
+theorem C17_session (pw : Bool) (hs : VHandshake) (hwf : hs.WF pw) (ms : List VMsg)
+    (hms : ∀ m ∈ ms, m.WF ∧ m.Recordable) (cs : List Bytes) (hcs : cs.flatten = hs.wire ++ ms.flatMap VMsg.wire) :
+    (feedAll proxyMachine (pxInit pw) cs).2.1 = [.startLogging] ++ ms.flatMap VMsg.events := by
+  rw [C17_chunk_independent, hcs, pxInit,
+    runs_feed_on proxyMachine C16_progress (pinv_init pw) (runs_session pw hs hwf ms hms)]
+
+/-- C16: in such a session the parser never raises (so recording never stops and nothing can disturb the relay) -/
+theorem C16_v2s_total (pw : Bool) (hs : VHandshake) (hwf : hs.WF pw) (ms : List VMsg)
+    (hms : ∀ m ∈ ms, m.WF ∧ m.Recordable) (cs : List Bytes) (hcs : cs.flatten = hs.wire ++ ms.flatMap VMsg.wire) :
+    ∀ e ∈ (feedAll proxyMachine (pxInit pw) cs).2.1, ∀ c, e ≠ .raise c := by
+  rw [C17_session pw hs hwf ms hms cs hcs]
+  intro e he c hc
+  subst hc
+  simp only [List.cons_append, List.nil_append, List.mem_cons, List.mem_flatMap, reduceCtorEq, false_or] at he
+  obtain ⟨m, _, hm⟩ := he
+  cases m <;> simp [VMsg.events] at hm
+
+/-! ## the recorder -/
+
+/-- a key event: exactly one entry `pause Δ keydown|keyup NAME ⏎`, the clock is reset -/
+theorem C17_record_key (r : RecSt) (now k : Nat) (down : Bool) (tok : List Char) (h : keyToken k = some tok) :
+    recStep r now (.key k down) =
+      ({ r with last := now },
+       some ("pause ".toList ++ fmtTicks (now - r.last) ++ (if down then " keydown ".toList else " keyup ".toList) ++ tok ++ " \n".toList)) := by
+  simp only [recStep, h, joinSp]
+  cases down <;> simp [List.dropLast_append_of_ne_nil, List.dropLast]
+
+/-- a pointer event: one entry; `move x y` iff the position differs from the last recorded one; one `click b` per
+    button bit set -/
+theorem C17_record_pointer (r : RecSt) (now x y mask : Nat) :
+    (recStep r now (.pointer x y mask)).1 = { r with last := now, mouse := some (x, y) } ∧
+    (recStep r now (.pointer x y mask)).2 = some (joinSp (["pause".toList, fmtTicks (now - r.last)] ++
+      (if r.mouse = some (x, y) then [] else ["move ".toList ++ (toString x).toList ++ [' '] ++ (toString y).toList]) ++
+      clickWords mask ++ [['\n']])) := by
+  refine ⟨rfl, ?_⟩
+  simp only [recStep]
+  by_cases hm : r.mouse = some (x, y) <;> simp [hm]
+
+theorem toString_toList_inj {a b : Nat} (h : (toString a).toList = (toString b).toList) : a = b := by
+  simp only [Nat.toString_eq_repr, Nat.toList_repr] at h
+  rw [← Nat.ofDigitChars_ten_toDigits (n := a), h, Nat.ofDigitChars_ten_toDigits]
+
+
+theorem C17_clicks (mask b : Nat) (hb : 1 ≤ b ∧ b ≤ 8) :
+    ("click ".toList ++ (toString b).toList) ∈ clickWords mask ↔ mask.testBit (b - 1) = true := by
+  simp only [clickWords, List.mem_filterMap, List.mem_range]
+  constructor
+  · rintro ⟨i, hi, h⟩
+    split at h
+    · rename_i ht
+      simp only [Option.some.injEq] at h
+      have := toString_toList_inj (List.append_cancel_left h)
+      subst this
+      simpa using ht
+    · cases h
+  · intro h
+    refine ⟨b - 1, by omega, ?_⟩
+    have : b - 1 + 1 = b := by omega
+    simp [h, this]
+
+
+/-- other messages are not recorded -/
+theorem C17_record_other (r : RecSt) (now : Nat) (e : PEvent) (h : ∀ k d, e ≠ .key k d) (h2 : ∀ x y m, e ≠ .pointer x y m)
+    (h3 : ∀ c, e ≠ .raise c) : recStep r now e = (r, none) := by
+  cases e <;> simp [recStep] at h h2 h3 ⊢
+
+theorem toString_len4 (n : Nat) (h : n < 10000) : (toString n).toList.length ≤ 4 := by
+  simp only [Nat.toString_eq_repr, Nat.toList_repr]
+  exact (Nat.length_toDigits_le_iff (by omega) (by omega)).2 (by simpa using h)
+
+
+/-- the pause is the elapsed time in seconds with exactly four decimals -/
+theorem C17_fmt (k : Nat) : ∃ ip fp : List Char, fmtTicks k = ip ++ ['.'] ++ fp ∧ fp.length = 4 ∧
+    ip = (toString (k / 10000)).toList ∧ fp = pad4 (k % 10000) := by
+  refine ⟨_, _, rfl, ?_, rfl, rfl⟩
+  have := toString_len4 (k % 10000) (Nat.mod_lt _ (by omega))
+  simp only [pad4, List.length_append, List.length_replicate]
+  omega
+
+
+example : fmtTicks 12345 = "1.2345".toList ∧ fmtTicks 3 = "0.0003".toList ∧ fmtTicks 0 = "0.0000".toList := by decide
+
+/-- every name in the table is non-empty -/
+theorem revmap_names : ∀ e ∈ Tables.REVERSE_MAP, e.2.isEmpty = false := by
+  decide
+
+
+/-- every key that has a name is recorded by its name, everything else up to 0x10FFFF as a quoted character -/
+theorem C17_key_token (k : Nat) (h : keyRecordable k = true) : ∃ tok, keyToken k = some tok ∧ tok ≠ [] := by
+  unfold keyToken reverseMapGet
+  cases hf : Tables.REVERSE_MAP.find? (fun e => e.1 == k) with
+  | some e =>
+    have hm := List.mem_of_find?_eq_some hf
+    have hne := revmap_names e hm
+    simp only [Option.map_some, hne]
+    refine ⟨_, rfl, ?_⟩
+    intro h0
+    have : e.2 = "" := by simpa using h0
+    simp [this] at hne
+  | none =>
+    simp only [Option.map_none]
+    have hk : k < 1114112 := by
+      simp only [keyRecordable, Bool.or_eq_true, decide_eq_true_eq] at h
+      rcases h with h | h
+      · rw [List.any_eq_true] at h
+        obtain ⟨e, he, h2⟩ := h
+        rw [List.find?_eq_none] at hf
+        have := hf e he
+        simp at h2
+        simp [h2.1] at this
+      · exact h
+    simp only [hk, if_true]
+    refine ⟨_, rfl, ?_⟩
+    unfold shlexQuote
+    simp
+    split <;> simp
+
 end Vnc
